@@ -450,6 +450,146 @@ def mapRemoveItemH (h : Heap) (ents : List Nat) (nk : Str) : Option (Option (Nat
           | none => none
           | some h2 => some (some (e, ents.erase e), h2)
 
+/-! ### clone onto an existing object, key enumeration, packet creation over a name list -/
+
+/-- `cif_value_clone(src, &dst)` with `*dst` an existing free-standing object at address `t` (after the repair f1b092b):
+    the copy is built in a scratch object first (`x` = the value the source represents at that moment), then the target
+    is cleaned, the scratch object's fields are moved into it, and the scratch object is released -/
+def cloneOntoH (fuel : Nat) (h : Heap) (t : Nat) (x : V) : Option Heap :=
+  match buildNew h x with
+  | (c, h1) =>
+    match read h1 c, read h1 t with
+    | some (.val new), some (.val old) =>
+      match cleanVal fuel h1 old with
+      | none => none
+      | some h2 =>
+        match write h2 t (.val new) with
+        | none => none
+        | some h3 => free h3 c
+    | _, _ => none
+
+/-- the `key_orig` pointers of the entries, in enumeration order -/
+def origKeys (h : Heap) : List Nat → Option (List Nat)
+  | [] => some []
+  | e :: es =>
+    match read h e with
+    | some (.entry _ _ ko) =>
+      match origKeys h es with
+      | some kos => some (ko :: kos)
+      | none => none
+    | _ => none
+
+/-- the (re)initialisers on a free-standing object at `t` — `cif_value_init(v, kind)`, `cif_value_init_char`,
+    `cif_value_copy_char`, `cif_value_parse_numb`: the previous content is released (`cif_value_clean`), then the components
+    of the new value `x` are allocated and recorded in the object -/
+def reinitH (fuel : Nat) (h : Heap) (t : Nat) (x : V) : Option Heap :=
+  match read h t with
+  | some (.val old) =>
+    match cleanVal fuel h old with
+    | none => none
+    | some h1 =>
+      match buildVal h1 x with
+      | (new, h2) => write h2 t (.val new)
+  | _ => none
+
+/-- `cif_map_get_keys`: an array of `count + 1` pointers to the entries' ORIGINAL keys (borrowed, not copied); the caller
+    releases the array only -/
+def getKeysH (h : Heap) (ents : List Nat) : Option (Nat × List Nat × Heap) :=
+  match origKeys h ents with
+  | none => none
+  | some kos =>
+    match alloc h (.arr kos (kos.length + 1)) with
+    | (a, h1) => some (a, kos, h1)
+
+/-- the normalised names, one block each, in order -/
+def allocStrs (h : Heap) : List Str → List Nat × Heap
+  | [] => ([], h)
+  | s :: ss =>
+    match alloc h (.str s) with
+    | (a, h1) =>
+      match allocStrs h1 ss with
+      | (as, h2) => (a :: as, h2)
+
+/-- the loop of cif_packet_create_norm (avoid_aliasing = 0) over (normalised name, its block): per name an entry block
+    whose key and original key are that block; an entry of the same key already present ⇒ the new block is released and
+    the loop stops (`false`, with the entries added so far) -/
+def addEntries (g : Heap) (ents : List Nat) : List (Str × Nat) → Option (Bool × List Nat × Heap)
+  | [] => some (true, ents, g)
+  | (nk, ka) :: rest =>
+    match alloc g (.entry .unk ka ka) with
+    | (e, g1) =>
+      match findEntry g1 ents nk with
+      | none => none
+      | some (some _) =>
+        match free g1 e with
+        | none => none
+        | some g2 => some (false, ents, g2)
+      | some none => addEntries g1 (ents ++ [e]) rest
+
+def freeList (h : Heap) : List Nat → Option Heap
+  | [] => some h
+  | a :: as =>
+    match free h a with
+    | none => none
+    | some h1 => freeList h1 as
+
+/-- second loop of cif_packet_create, walking the entries in insertion order next to the names as given: an entry whose
+    name differs from its normalised form (= its key, which it still aliases as original key) gets a separate original
+    key.  This is `entryRespell` on an entry with `key_orig == key`: nothing is released. -/
+def setOrigs (g : Heap) : List (Nat × Str × Str) → Option Heap
+  | [] => some g
+  | (e, orig, _) :: rest =>
+    match entryRespell false g e orig with
+    | none => none
+    | some g1 => setOrigs g1 rest
+
+/-- `cif_packet_create(&p, names)` (after the repair c571e89) for names given as `(original, normalised)`: the array of
+    normalised names, the normalised strings, the packet block, the entries (`addEntries`); on a duplicate everything is
+    released again (cif_packet_free of the partial non-standalone packet = the entry blocks and the packet block; then the
+    normalised names and the array) and the result is CIF_DUP_ITEMNAME (`some (none, h')`); otherwise the original
+    spellings are attached, `is_standalone` is set and the array is released.  `none` = a dead block was touched. -/
+def packetCreateH (h : Heap) (names : List (Str × Str)) : Option (Option (Nat × List Nat) × Heap) :=
+  match alloc h (.arr [] (names.length + 1)) with
+  | (arr, h0) =>
+    match allocStrs h0 (names.map (·.2)) with
+    | (kas, h1) =>
+      match alloc h1 (.pkt [] false) with
+      | (p, h2) =>
+        match addEntries h2 [] ((names.map (·.2)).zip kas) with
+        | none => none
+        | some (false, ents, g) =>
+          match freeList g ents with
+          | none => none
+          | some g1 =>
+            match free g1 p with
+            | none => none
+            | some g2 =>
+              match freeList g2 kas with
+              | none => none
+              | some g3 =>
+                match free g3 arr with
+                | none => none
+                | some g4 => some (none, g4)
+        | some (true, ents, g) =>
+          match setOrigs g (ents.zip names) with
+          | none => none
+          | some g1 =>
+            match write g1 p (.pkt ents true) with
+            | none => none
+            | some g2 =>
+              match free g2 arr with
+              | none => none
+              | some g3 => some (some (p, ents), g3)
+
+/-- `cif_packet_free`: the entries of the (standalone) packet, then the packet block -/
+def packetFreeH (fuel : Nat) (h : Heap) (p : Nat) : Option Heap :=
+  match read h p with
+  | some (.pkt ents _) =>
+    match freeEntries fuel h ents with
+    | none => none
+    | some h1 => free h1 p
+  | _ => none
+
 /-- one entry of a map: its blocks and what they represent (`ka = koa` is the sharing cif_packet_create sets up for a
     name that is already normalised) -/
 def RepEntry (h : Heap) (e : Nat) (k ko : Str) (v : V) (F : List Nat) : Prop :=
